@@ -47,6 +47,9 @@ RULE = ('cases = suite hierarchies (depth <= 3, <= 3 sub-suite lines and <= 4 ca
         'command line); plus an enumerated verdict matrix (outcome x variant x placement).  Non-trivial = (>= 2 suite '
         'files or a glob) and (>= 1 unsuccessful case or an invalid hierarchy); distinct = distinct generated tree')
 ASSUMPTIONS = [
+    'a listing line that is one quoted token is a plain file name whatever characters it contains ("Exactly does not '
+    'put any restriction on file names"; the repository\'s own tests of the listing-line parser pin this reading); '
+    'other uses of quotes on a listing line stay outside the model',
     'a directory listed as a test case: the manual calls only references to NON-EXISTING files an invalid suite and '
     'says ERROR when "a test case could not be executed"; INVALID_SUITE and ERROR-with-unsuccessful-case are both '
     'accepted',
